@@ -246,6 +246,9 @@ func Gen(t *rapid.T, tier string) any {
 			op = Op{K: "flush"}
 		case k < 64:
 			op = Op{K: "clear"}
+			if rapid.IntRange(0, 2).Draw(t, "clear_overlaps_add") == 0 {
+				op = Op{K: "rec_clear", Rec: genRec(t)}
+			}
 		case k < 69:
 			op = Op{K: "conf", En: rapid.IntRange(0, 24).Draw(t, "c_en") != 0, IvlH: rapid.SampledFrom(intervals).Draw(t, "c_ivl"),
 				Anon: rapid.IntRange(0, 4).Draw(t, "c_anon") == 0, Ign: genIgn(t)}
@@ -1227,6 +1230,33 @@ func (r *run) apply(op *Op) error {
 		}
 		r.c.Probe("explicit_flush")
 		return r.observe("flush")
+	case "rec_clear":
+		// A record whose Add may have started the memory-to-disk flush,
+		// followed at once — without waiting for that goroutine — by a clear.
+		// Whatever the order of the two, the log is empty afterwards and later
+		// records are flushed as usual.
+		if err := r.advance(time.Duration(op.Rec.GapNs)); err != nil {
+			return err
+		}
+		n.NoWait = true
+		_, _, _, err := n.Record(op.Rec)
+		n.NoWait = false
+		if err != nil {
+			return err
+		}
+		code, body, err := n.Mux.Do(http.MethodPost, "/control/querylog_clear", nil)
+		if err != nil {
+			return apiErr(err, "api-panic")
+		}
+		if code != http.StatusOK {
+			return kernel.Violationf("api-status", "POST querylog_clear -> %d %s", code, body)
+		}
+		kernel.Wait()
+		m.nextID++
+		m.mem, m.cur, m.rot = nil, nil, nil
+		r.c.Fault("clear")
+		r.c.Probe("clear_overlapping_pending_flush")
+		return r.observe("clear")
 	case "clear":
 		code, body, err := n.Mux.Do(http.MethodPost, "/control/querylog_clear", nil)
 		if err != nil {
@@ -1481,7 +1511,7 @@ var Prop = &kernel.Property{
 		"older_than values that are not the timestamp of an existing entry are only checked for no crash / no wrong entry",
 	},
 	FaultKinds: []string{"clean_restart", "process_crash", "clock_jump", "clear", "config_change", "memsize_change", "client_ignore_toggle", "hostile_request"},
-	ProbeNames: []string{"recorded", "flush_observed", "explicit_flush", "rotation_observed", "rotation_dropped_old_file", "rotation_at_exact_age", "entries_in_all_three_places",
+	ProbeNames: []string{"clear_overlapping_pending_flush", "recorded", "flush_observed", "explicit_flush", "rotation_observed", "rotation_dropped_old_file", "rotation_at_exact_age", "entries_in_all_three_places",
 		"cursor_memory_to_file", "cursor_file_to_rotated", "page_ends_at_memory_boundary", "page_ends_at_file_boundary", "search_checked", "search_nonempty", "search_open_entries", "idn_search",
 		"ignored_hidden", "not_logged_ignored", "not_logged_disabled", "crash_lost_memory_entries", "legacy_conf_rejected", "hostile_rejected_4xx", "hostile_answered_200", "older_than_absent_incomplete", "scan_limit_continuation"},
 }
